@@ -16,8 +16,11 @@ MANIFEST = dict(
               'PHYSCOLLIDE blocks, DeferredWrites) + generic theorems over format/layout/guard/dispatch/field-order/template/dedup-key/'
               'helper-property/loop-shape/rebuild-order/physics-header tables regenerated from bsp.py, binformat.py and vmf.py by fail-closed '
               'ast translators + vm_compute correspondence (struct, RLE, row size, find_or_insert/extend with and without key, texture table, '
-              'entity lump, PHYSCOLLIDE, DeferredWrites; byte-exact) + field-by-field save/re-read oracle',
-    text='Theorems in Props/C11.v (55): for every struct format of the modelled language and every fitting record unpack(pack v) = v; '
+              'entity lump, PHYSCOLLIDE, DeferredWrites; byte-exact) + static-prop format selection tabulated by EXECUTING the heads of '
+              '_lmp_read_props / _lmp_write_props over the ast for every (BSP version, header number, record size, format named), compared '
+              'exhaustively with the implementation + field-by-field save/re-read oracle incl. histories (file with empty tables read first; '
+              'nothing read; format named; save rejected, value repaired in place, saved again) + the commit order of save() as a generated event list',
+    text='Theorems in Props/C11.v (65): for every struct format of the modelled language and every fitting record unpack(pack v) = v; '
          'pack succeeds only if every integer is inside its field (out-of-range raises); Ns fields pad and silently truncate, '
          'so a guarded site never truncates; run-length decoding inverts encoding for every byte list, alone and at its offset '
          'inside the lump; an integer expression that passes the decision procedure rowsize_ok equals ceil(n/8) for EVERY cluster count and '
@@ -44,7 +47,16 @@ MANIFEST = dict(
          'index, solids as length + bytes, keyvalues text + NUL, sentinel header) is read back unchanged when both sides use one order of '
          'the four header values, one sentinel and one order of the sections (a swapped header is refuted); a file written with '
          'DeferredWrites (slots reserved, set later, filled in at the end) is the file of a two-pass writer in which every slot holds the '
-         'value set last for its key (a slot never set is an error); the sprite dictionary entry of a sprite / shape detail prop is read back slot by slot when both sides name one attribute component per slot (sprite_dict_roundtrip). '
+         'value set last for its key (a slot never set is an error); the sprite dictionary entry of a sprite / shape detail prop is read back slot by slot when both sides name one attribute component per slot (sprite_dict_roundtrip); '
+         'the static-prop FORMAT - chosen by the reader of one file from (BSP version, header number, record size), recorded in the BSP object and '
+         'used by the writer of the next - is found again by a fresh reader of the saved file in every history that leads to the writer: the lump '
+         'was EMPTY when read (the guess made from the header number alone), the lump was never read (the writer\'s fallback and the header '
+         'number it sets), the caller named the format (kept by the reader of an empty lump, written under its own header number, found again '
+         'when no other format shares header number and record size) - static_prop_format_property, generic over the generated tables; a '
+         'first-match guess and a header number left as the opened file had it are refuted; the rebuild loop of save(), read as a list of events '
+         '(view leaves the cache / a point that can raise / bytes stored), keeps every view in the cache until nothing can raise for it any more, '
+         'so a save() rejected by a value that does not fit leaves the object as it was and can be repeated (rejected_save_keeps_the_view; '
+         'popping the view first is refuted). '
          'Generic over the tables generated from today\'s source: every reader/writer site '
          'pair of every lump uses one layout in each of the five layout tables; for 23 record variants (planes, vertexes, primitives, faces, '
          'brush sides, brushes, leaf water data, leafs, nodes, texdata, texinfo, brush models, cubemaps, overlay fades/system levels, the three '
@@ -53,15 +65,26 @@ MANIFEST = dict(
          'reader\'s size for every face count; each detail-prop class is written by its own branch; all 28 index tables of the writers have a '
          'key that determines the record; all 8 loops over local index tables reach every entry; the rebuild order is topological for the 28 '
          'append edges. The premises are kernel-checked for '
-         'today\'s source on every run (249 obligations). Models are compared byte-exactly with CPython struct, runlength_encode/decode, '
+         'today\'s source on every run (295 obligations). Models are compared byte-exactly with CPython struct, runlength_encode/decode, '
          'binformat.find_or_* (with key functions), binformat.DeferredWrites, _lmp_write/read_textures, write_ent_data/_lmp_read_ents, the '
          'PHYSCOLLIDE lump of _lmp_write/read_bmodels; generated lump contents (incl. '
          'near-duplicate objects, and objects reachable ONLY through references of other objects - grafted sub-trees of nodes, leafs, faces, '
          'original faces, brushes, sides, planes, texinfo, texdata at depth >= 2) are assigned to all 20 views '
          'of a base BSP in 7 layouts x 13 static-prop versions, saved, re-read and compared field by field; in a fifth of the worlds the '
-         're-read objects are then changed in place and the same BSP object is saved and re-read again; values that do not fit must raise; '
+         're-read objects are then changed in place and the same BSP object is saved and re-read again; the re-read file has to say by itself '
+         'which static-prop format it holds (only V11-in-a-v20-file / Mesa-elsewhere, which no file can tell apart, are named to the reader); '
+         'histories: a file whose static-prop / detail-prop / overlay / cubemap tables are empty is read view by view, then a world is '
+         'assigned to the same object (every layout x every header number), the same with nothing read, the same with the format named '
+         'before the empty lump is read; values that do not fit must raise - and after the rejection the value is repaired in place and the same '
+         'object saved again: the second save must write the whole world (7 layouts x 7 views); '
          'every call into the implementation runs under a time limit (a hang is reported as a failing input).',
-    note='Partial: instance-name prefixes of outputs and mapversion are searched, not modelled; the '
+    note='Partial: instance-name prefixes of outputs and mapversion are searched, not modelled; the static-prop format tables are produced '
+         'by a small interpreter (translate/c11_propver.py: if / for over the enum / break / try-except / assignments / helper methods; '
+         'fail-closed outside that language) - it is CHECKED, not trusted: every row is compared with the running implementation; what stays '
+         'trusted there is that the record loops use the locals `version` / `vers_num` the tables end with (the per-format ladders are '
+         'generated separately: prop_layout_agree). Two formats share (header 11, 80 bytes): which one a file holds is decided by the BSP '
+         'version alone (20 = Black Mesa\'s variant), so V11 records in a v20 file / Mesa records elsewhere are outside the claim unless the '
+         'caller names the format to the reader. The '
          'keyvalues text inside a physics block is opaque (its syntax is C01\'s). The work-list theorem is about the loop shape read from the '
          'source (which list is iterated, live or snapshot, where the finder closure is used); that the body turns EVERY reference of the '
          'record into an index through the finder is covered by record_fields_agree:nodes. Field orders are generated by a name-based '
@@ -84,7 +107,7 @@ IMPORTS = ['Coq.Lists.List', 'Coq.Strings.String', 'Coq.NArith.NArith', 'Coq.ZAr
            'SV.Bin.LE', 'SV.Bin.Struct', 'SV.Bin.RLE', 'SV.Bin.FindInsert', 'SV.Fmt.BspFormatsSpec', 'SV.Fmt.BspDedup', 'SV.Gen.BspFormats_gen']
 IMPORTS_GLUE = ['Coq.Lists.List', 'Coq.Strings.String', 'Coq.NArith.NArith', 'Coq.ZArith.ZArith', 'Coq.Bool.Bool',
                 'SV.Bin.LE', 'SV.Bin.Struct', 'SV.Bin.RLE', 'SV.Fmt.BspFormatsSpec', 'SV.Fmt.BspVisRow', 'SV.Fmt.BspTexStrings',
-                'SV.Fmt.BspRecords', 'SV.Fmt.VmfText', 'SV.Fmt.BspEntLump', 'SV.Fmt.BspDedup', 'SV.Fmt.BspFlagSplit', 'SV.Fmt.BspOverlayRec', 'SV.Fmt.BspWorklist', 'SV.Fmt.BspPhys', 'SV.Bin.BspDeferred', 'SV.Fmt.BspSpriteDict', 'SV.Gen.BspFormats_gen', 'SV.Gen.BspGlue_gen']
+                'SV.Fmt.BspRecords', 'SV.Fmt.VmfText', 'SV.Fmt.BspEntLump', 'SV.Fmt.BspDedup', 'SV.Fmt.BspFlagSplit', 'SV.Fmt.BspOverlayRec', 'SV.Fmt.BspWorklist', 'SV.Fmt.BspPhys', 'SV.Bin.BspDeferred', 'SV.Fmt.BspSpriteDict', 'SV.Fmt.BspPropVersion', 'SV.Fmt.BspSaveCommit', 'SV.Gen.BspFormats_gen', 'SV.Gen.BspGlue_gen']
 PRE = '''Import ListNotations. Open Scope string_scope. Open Scope list_scope.
 Fixpoint nl_eqb (a b : list N) : bool := match a, b with [], [] => true | x :: a', y :: b' => N.eqb x y && nl_eqb a' b' | _, _ => false end.
 Fixpoint natl_eqb (a b : list nat) : bool := match a, b with [], [] => true | x :: a', y :: b' => Nat.eqb x y && natl_eqb a' b' | _, _ => false end.
@@ -979,6 +1002,162 @@ def corr_find(ck: Ck) -> None:
 
 
 # ------------------------------------------------------------------------------------------------ oracle
+def corr_propver(ck: Ck, base: str, glue: dict) -> None:
+    """The tables of translate/c11_propver.py (made by executing the heads of _lmp_read_props / _lmp_write_props over the ast) against
+    the running implementation, EXHAUSTIVELY: every BSP version x header number 0..15 x format named beforehand for an empty lump; x
+    every record size for a lump with one (all-zero) record; every recorded format for the writer (record size written)."""
+    import srctools.bsp as B
+    from srctools.math import Angle, Vec
+    from translate import c11_propver
+    t = c11_propver.LAST_TABLES
+    if not t or not glue.get('prop_version_choice'):
+        return
+    SV = B.StaticPropVersion
+    b = B.BSP(base)
+    b.visleafs      # (parsed now, in the file's own layout: the calls below change `version` under the object's feet)
+    leaf_w = struct.calcsize('<' + b.lump_layout['STATICPROPLEAF'].format[1])
+    bad: list[str] = []
+
+    def fmt_of(nm: str) -> Any:
+        return SV[nm] if nm else SV[t['unknown']]
+
+    def bsp_version(n: int) -> Any:
+        try:
+            return B.VERSIONS(n)
+        except ValueError:
+            return n
+
+    def read(bv: int, hdr: int, data: bytes, pre: str) -> str:
+        b.version = bsp_version(bv)
+        b.static_prop_version = fmt_of(pre)
+        try:
+            with U.time_limit(U.IMPL_TIME_LIMIT):
+                list(b._lmp_read_props(hdr, data))
+        except Exception as e:      # noqa: BLE001
+            return '!' + type(e).__name__
+        v = b.static_prop_version
+        return '' if v is SV[t['unknown']] else v.name
+    empty = struct.pack('<iii', 0, 0, 0)
+    for bv, hdr, pre, want in t['empty']:
+        got = read(bv, hdr, empty, pre)
+        ck.count('prop_format_table_rows_compared')
+        if got != want:
+            bad.append(f'empty lump, BSP version {bv}, header {hdr}, named {pre or "-"}: table {want or "-"}, implementation {got or "-"}')
+    for bv, hdr, size, pre, want, _dec, _lad in t['sized']:
+        data = struct.pack('<i', 1) + b'm'.ljust(128, b'\0') + struct.pack('<i', 0) + struct.pack('<i', 1) + bytes(size)
+        got = read(bv, hdr, data, pre)
+        ck.count('prop_format_table_rows_compared')
+        # (a record of the wrong size that the head does not reject may fail later: only the head is tabulated)
+        if got != want and not (want.startswith('!') and got.startswith('!')):
+            bad.append(f'one record of {size} bytes, BSP version {bv}, header {hdr}, named {pre or "-"}: table {want or "-"}, implementation {got or "-"}')
+    sizes = {m[0]: m[2] for m in t['members']}
+    for pre, rec, written, _lad, hw in t['writer']:
+        b.version = B.VERSIONS.HL2_EP1
+        b.static_prop_version = fmt_of(pre)
+        b.game_lumps[b'sprp'].version = 255
+        try:
+            with U.time_limit(U.IMPL_TIME_LIMIT):
+                data = bytes(b._lmp_write_props([B.StaticProp('m', Vec(), Angle())]))
+            (nm,) = struct.unpack_from('<i', data, 0)
+            (nl,) = struct.unpack_from('<i', data, 4 + 128 * nm)
+            got_size = len(data) - (4 + 128 * nm + 4 + leaf_w * nl + 4)
+            got = (b.static_prop_version.name, got_size, b.game_lumps[b'sprp'].version)
+        except Exception as e:      # noqa: BLE001
+            got = ('!' + type(e).__name__, 0, 255)
+        ck.count('prop_format_table_rows_compared')
+        if got != (rec, sizes.get(written, 0), hw):
+            bad.append(f'writer, recorded before {pre or "-"}: table records {rec}, writes in {written} ({sizes.get(written, 0)} bytes), header number '
+                       f'{hw} (255 = left as it was); implementation {got}')
+    ck.obligation('correspondence:prop_version_choice', not bad,
+                  f'{len(t["empty"]) + len(t["sized"]) + len(t["writer"])} table rows (every BSP version x header number x record size x format named) '
+                  f'against _lmp_read_props / _lmp_write_props: {len(bad)} disagreements' + (': ' + '; '.join(bad[:5]) if bad else ''))
+    if bad:
+        ck.tie_broken.append('correspondence static-prop format tables vs _lmp_read_props / _lmp_write_props')
+
+
+def version_histories(ck: Ck, base: str, wd: str) -> None:
+    """Histories in which the format / version the WRITER uses was chosen by the READER of an earlier file: a file whose static-prop,
+    detail-prop, overlay and cubemap tables are EMPTY is read (every layout x every header number that a static-prop format has),
+    a world is assigned to the same object, saved, and re-read by a fresh object.  Nobody names the static-prop format."""
+    import srctools.bsp as B
+    hdrs = sorted({v.version for v in B.StaticPropVersion if v.name in U.PROP_VERSIONS})
+    feats_pool = ['water', 'hdr', 'physics', 'outputs', 'fresh_objects', 'shared_objects', 'near_duplicates', 'grafted', 'hi_bytes']
+    rounds = ck.budget(1, 6)
+    for rnd in range(rounds):
+        for cfg in U.CONFIGS:
+            for hdr in hdrs:
+                feats = set() if rnd == 0 else {f for f in feats_pool if ck.rng.random() < 0.35}
+                seed = ck.rng.getrandbits(40)
+                res, g, chosen = U.from_empty(base, wd, cfg, hdr, seed, feats, 3 if rnd == 0 else ck.rng.choice([2, 4, 6]))
+                ck.count('histories_read_empty_then_assign')
+                ck.hist('history_header_number', str(hdr))
+                ck.hist('history_format_chosen_for_empty_lump', chosen)
+                ck.seen(('from_empty', cfg, hdr, seed))
+                # the same file opened by an object that never reads anything: a world is assigned, saved, re-read
+                # (quick tier: every header number in one layout per round, rotating; thorough: every layout)
+                res2: dict[str, str] = {}
+                g2, chosen2 = None, '?'
+                if ck.thorough or len(ck.tie_broken) or U.CONFIGS.index(cfg) == (hdr + rnd) % len(U.CONFIGS):
+                    res2, g2, chosen2 = U.from_empty(base, wd, cfg, hdr, seed, feats, 3 if rnd == 0 else 4, read_first=False)
+                    ck.count('histories_never_read_then_assign')
+                for view, diff in res2.items():
+                    key = f'never-read-then-assign:{view}' + (f':header-{hdr}' if view == 'props' or view.startswith('!') else '')
+                    ck.violation(key, f'a file (static-prop header number {hdr}, layout {cfg}) is opened, a world is assigned without any view being read, '
+                                      f'saved (static props written as {chosen2}) and re-read by a fresh object: {diff}',
+                                 {'history': 'never_read', 'cfg': cfg, 'header': hdr, 'seed': seed, 'feats': sorted(feats),
+                                  'size': g2.size if g2 is not None else 3, 'hview': view, 'chosen': chosen2, 'diff': diff,
+                                  'how': 'harness.c11_util.from_empty(base, dir, cfg, header, seed, feats, size, read_first=False); ./check C11 --replay <this file>'})
+                # the caller names a format of this header number before the empty lump is read (one format per layout and round, rotating)
+                cands = [v.name for v in B.StaticPropVersion if v.version == hdr and v.name in U.PROP_VERSIONS]
+                nm = cands[(U.CONFIGS.index(cfg) + rnd) % len(cands)]
+                res3, g3, chosen3 = U.from_empty(base, wd, cfg, hdr, seed, feats, 3, named=nm)
+                ck.count('histories_named_then_read_empty_then_assign')
+                for view, diff in res3.items():
+                    key = f'named-then-read-empty:{view}' + (f':{nm}' if view == 'props' or view.startswith('!') else '')
+                    ck.violation(key, f'static_prop_version = {nm} is set on a file with an empty static-prop lump (header number {hdr}, layout {cfg}), the lump is '
+                                      f'read, a world is assigned and saved; re-read by a fresh object: {diff}',
+                                 {'history': 'named', 'cfg': cfg, 'header': hdr, 'seed': seed, 'feats': sorted(feats), 'named': nm,
+                                  'size': g3.size if g3 is not None else 3, 'hview': view, 'chosen': chosen3, 'diff': diff,
+                                  'how': 'harness.c11_util.from_empty(base, dir, cfg, header, seed, feats, size, named=named); ./check C11 --replay <this file>'})
+                for view, diff in res.items():
+                    where = 'v20' if cfg == 'v20' else 'not-v20'
+                    key = f'from-empty-lump:{view}' + (f':header-{hdr}:bsp-{where}' if view == 'props' or view.startswith('!') else '')
+                    ck.violation(key, f'a file with an empty static-prop lump (header number {hdr}, layout {cfg}) is read, a world is assigned to the same '
+                                      f'BSP object and saved; re-read by a fresh object: {diff}',
+                                 {'history': 'from_empty', 'cfg': cfg, 'header': hdr, 'seed': seed, 'feats': sorted(feats),
+                                  'size': g.size if g is not None else 3, 'hview': view, 'chosen': chosen, 'diff': diff,
+                                  'how': 'harness.c11_util.from_empty(base, dir, cfg, header, seed, feats, size); ./check C11 --replay <this file>'})
+
+
+def retry_histories(ck: Ck, base: str, wd: str) -> None:
+    """Error path of the rejection: a value that does not fit makes save() raise; the caller repairs the value in place and saves the
+    SAME object again.  Whatever the first save left behind, the second must write the world."""
+    rounds = ck.budget(1, 8)
+    for rnd in range(rounds):
+        for i, cfg in enumerate(U.CONFIGS):
+            for view in U.BREAKABLE:
+                res = None
+                for k in range(40):
+                    seed = ck.rng.getrandbits(40)
+                    g = U.Gen(seed, cfg, U.PROP_VERSIONS[(i * 3 + k + rnd) % len(U.PROP_VERSIONS)], {'model_detail', 'sprite_detail', 'water', 'physics'},
+                              3 if rnd == 0 else ck.rng.choice([2, 4, 6]))
+                    res = U.retry_after_reject(base, wd, g, view)
+                    if res is not None:
+                        break
+                if res is None:
+                    continue        # (no value of this view is rejected in this layout: e.g. 40000 clusters fit the chaos layout)
+                ck.count('histories_rejected_save_then_repair_then_save')
+                ck.hist('history_rejected_view', view)
+                ck.seen(('retry', cfg, view, g.seed))
+                for v2, diff in res.items():
+                    ck.violation(f'retry-after-rejected-save:{view}:{v2}',
+                                 f'{view}[0].{U.BREAKABLE[view][0]} = {U.BREAKABLE[view][1]} makes save() raise ({cfg}); the value is repaired in place and the same '
+                                 f'object is saved again; re-read by a fresh object: {diff}',
+                                 {'history': 'retry', 'cfg': cfg, 'prop_ver': g.prop_ver, 'seed': g.seed, 'feats': sorted(g.feats), 'size': g.size,
+                                  'bad_view': view, 'hview': v2, 'diff': diff,
+                                  'how': 'harness.c11_util.retry_after_reject(base, dir, Gen(seed, cfg, prop_ver, feats, size), bad_view); ./check C11 --replay <this file>'})
+
+
 def classify(view: str, diff: str, feats: set[str], g: U.Gen) -> str:
     if view == 'water_leaf_info' and diff.startswith('water_leaf_info: length') and diff.endswith('!= 0'):
         return 'water-leaf-info-writer-uses-self'
@@ -1320,6 +1499,20 @@ def glue_obligations(glue: dict) -> dict[str, str]:
                                                      'sprite_entry_ok (fst sprite_dict_fmts) (snd sprite_dict_fmts) e) sprite_dict' % c)
     obs['sprite_dictionary_found'] = 'sprite_dict_ok sprite_dict_fmts sprite_dict'
     obs['index_table_loops_found'] = 'negb (Nat.eqb (List.length worklists) 0)'
+    # the static-prop format: chosen by the reader of one file, used by the writer of the next.  History 1, per header number: a file
+    # with an EMPTY lump is read, props are assigned and saved, a fresh reader decodes with the format they were written in.
+    # History 2, per format: named by the caller it is the format written, and a fresh reader finds a format of the same header number and size
+    pv = glue.get('prop_version_choice', {})
+    for h in sorted({m[1] for m in pv.get('members', [])}):
+        obs[f'prop_format_chosen_for_empty_lump_is_found_again:header-{h}'] = f'pv_from_empty_ok_hdr pv_tables {h}%N'
+    for k, m in enumerate(pv.get('members', [])):
+        obs[f'prop_format_named_is_written_and_found_again:{m[0]}'] = f'forallb (fun bv => hist_named_ok pv_tables bv {k + 1}%N) pv_bsp_versions'
+    # History 3, per header number of the opened file: props assigned to an object that never read the lump
+    for h in range(4, 14):
+        obs[f'prop_format_written_without_reading_is_found_again:header-{h}'] = f'pv_never_read_ok_hdr pv_tables {h}%N'
+    obs['prop_format_tables_pass'] = 'pv_ok pv_tables'
+    # error path: save() keeps a view in the cache until nothing can raise any more for it (a rejected value must not cost the view)
+    obs['save_keeps_a_view_until_its_writer_succeeded'] = 'commit_ok save_events'
     obs['rebuild_order_runs_appending_writers_first'] = 'order_ok rebuild_order append_edges'
     return obs
 
@@ -1337,7 +1530,11 @@ def run(ck: Ck) -> None:
                'physics blocks: 1-5 brush models with 0-3 solids of 0-300 bytes and keyvalues text or none, non-trivial = at least two blocks; '
                'DeferredWrites: sequences of write / defer / set_data calls over 4 keys (keys deferred twice, slots never set, keys never '
                'deferred included), non-trivial = at least two slots and a file results; worlds with the feature grafted contain objects '
-               'reachable only through references (depth >= 2), worlds with resave are changed in place after the re-read and saved again')
+               'reachable only through references (depth >= 2), worlds with resave are changed in place after the re-read and saved again; '
+               'histories: (layout in 7) x (static-prop header number in 4..13) x {empty tables read first, nothing read, format named first}, the '
+               'world assigned afterwards has at least one static prop and one detail prop, distinct by layout/header/seed; static-prop '
+               'format tables: the complete domain (12 BSP versions x 16 header numbers x 12 record sizes x 14 formats named), every row compared; '
+               'retry histories: (layout in 7) x (view in 7 whose first object gets one value outside its field), non-trivial = the first save raised')
     ck.trusted.append('hand-written models Bin/Struct.v, Bin/RLE.v, Bin/FindInsert.v, Fmt/BspTexStrings.v, Fmt/BspEntLump.v (+ Fmt/VmfText.hs) '
                       '(tied by byte-exact correspondence on every run)')
     ck.trusted.append('translate/c11_records.py: name-based data-flow analysis that labels every struct slot with the attributes it carries; '
@@ -1352,6 +1549,8 @@ def run(ck: Ck) -> None:
     ck.trusted.append('hand models Fmt/BspWorklist.v (Python list iteration over a growing list = position compared with the current length on '
                       'every step), Fmt/BspPhys.v, Bin/BspDeferred.v (DeferredWrites over a file that is only appended to before the final pass); '
                       'translate/c11_worklist.py (which loops walk a finder table, position-based inside/after classification), c11_phys.py')
+    ck.trusted.append('Fmt/BspPropVersion.v gives the generated static-prop format tables their meaning (histories of read / write calls); the tables '
+                      'themselves are compared row by row with _lmp_read_props / _lmp_write_props on every run (correspondence prop_version_choice)')
     ck.assumptions.append('x86-64 little-endian host: the few native-order formats of bsp.py (i, ii, fff) are identified with their "<" forms; '
                           'the model accepts native formats only when all fields are numbers of one size (no alignment padding possible)')
     ck.assumptions.append('math.ceil(n / 8) is modelled as the exact rational ceiling (CPython float division by 8 is exact for n < 2^53)')
@@ -1458,6 +1657,11 @@ def run(ck: Ck) -> None:
             guarded(ck, 'reject_probes', reject_probes, ck, base, wd)
             guarded(ck, 'output_delay_probe', high_precision_delay_probe, ck, base, wd)
             lap('reject_probes')
+            guarded(ck, 'version_histories', version_histories, ck, base, wd)
+            guarded(ck, 'retry_histories', retry_histories, ck, base, wd)
+            if built:
+                guarded(ck, 'corr_propver', corr_propver, ck, base, glue)
+            lap('version_histories')
             guarded(ck, 'search', search, ck, base, wd)
             lap('search')
     finally:
@@ -1568,6 +1772,13 @@ def run(ck: Ck) -> None:
             for pref, views in view_of.items():
                 if st.startswith(pref) and (hit_views & set(views) or '!any' in hit_views or '!save' in hit_views or '!read' in hit_views):
                     ck.explain(nm)
+        if nm.startswith('instance:save_keeps_a_view') and any(k.startswith('retry-after-rejected-save') for k in keys):
+            ck.explain(nm)
+        if nm.startswith('instance:prop_format_') and (any(k.startswith('from-empty-lump:props') or k.startswith('from-empty-lump:!') or k.startswith('props')
+                                                            or k.startswith('never-read-then-assign:props') or k.startswith('never-read-then-assign:!')
+                                                            or k.startswith('named-then-read-empty:props') or k.startswith('named-then-read-empty:!')
+                                                            for k in keys) or hit_views & {'!read', '!save'}):
+            ck.explain(nm)
         if nm.startswith('instance:prop_layout_agree:') or nm.startswith('instance:prop_fields_agree:'):
             if 'props' in hit_views or '!save' in hit_views or '!read' in hit_views:
                 ck.explain(nm)
@@ -1582,6 +1793,16 @@ def replay(data: dict) -> int:
     base = os.path.join(wd, 'base.bsp')
     U.make_base(str(REPO / 'tests' / 'test_vec' / 'rot_main.bsp'), base)
     try:
+        if r.get('history') == 'retry':
+            res = U.retry_after_reject(base, wd, U.Gen(r['seed'], r['cfg'], r['prop_ver'], set(r['feats']), r['size']), r['bad_view'])
+            print('implementation (rejected save, value repaired in place, second save, re-read) differences per view:', res or 'none')
+            return 1 if res and r['hview'] in res else 0
+        if r.get('history') in ('from_empty', 'never_read', 'named'):
+            res, _g, chosen = U.from_empty(base, wd, r['cfg'], r['header'], r['seed'], set(r['feats']), r['size'], read_first=r['history'] != 'never_read',
+                                           named=r.get('named'))
+            print('format chosen after reading the empty lump:', chosen)
+            print('implementation (read empty, assign, save, re-read) differences per view:', res or 'none')
+            return 1 if r['hview'] in res else 0
         if 'seed' in r and 'view' in r:
             g = U.Gen(r['seed'], r['cfg'], r['prop_ver'], set(r['feats']), r['size'])
             res = U.roundtrip(base, wd, g)
